@@ -50,6 +50,10 @@ pub struct GateCase {
     pub cuts: u16,
     /// a PUBLISH follows the first packet in the same stream
     pub pipelined: bool,
+    /// combined server with `protocol_version_timeout(0)` (= no limit) and 1.2 s of real time between the first piece of
+    /// the stream and the rest: the late CONNECT is still routed
+    #[serde(default)]
+    pub late: bool,
 }
 
 type Log = Rc<RefCell<Vec<String>>>;
@@ -70,7 +74,7 @@ impl TryFrom<E19> for v5::PublishAck {
 
 type CombinedPipeline = Pipeline<ntex::service::boxed::BoxService<IoBoxed, (), ntex_mqtt::MqttError<E19>>>;
 
-async fn combined(log: Log) -> CombinedPipeline {
+async fn combined(log: Log, no_version_timeout: bool) -> CombinedPipeline {
     let (l3, l3p, l5, l5p) = (log.clone(), log.clone(), log.clone(), log.clone());
     let srv = ntex_mqtt::MqttServer::new()
         .v3(v3::MqttServer::new(move |h: v3::Handshake| {
@@ -105,7 +109,7 @@ async fn combined(log: Log) -> CombinedPipeline {
                 Ok::<_, E19>(p.ack())
             }
         })));
-    let shared: SharedCfg = crate::bed::v5::Cfg5::default().shared();
+    let shared: SharedCfg = crate::bed::v5::Cfg5 { protocol_version_timeout: no_version_timeout.then_some(0), ..Default::default() }.shared();
     let svc = ServiceFactory::<IoBoxed, SharedCfg>::create(&srv, shared).await.expect("combined server factory");
     Pipeline::new(ntex::service::boxed::service(svc))
 }
@@ -166,7 +170,7 @@ pub async fn run_gate(c: GateCase) -> Result<CaseInfo, Failure> {
     let (peer, done, hs_seen, pubs_seen, out);
     match c.srv {
         Srv::Combined => {
-            let pl = combined(log.clone()).await;
+            let pl = combined(log.clone(), c.late).await;
             let (p, server_io) = Peer::pair();
             let io = Io::new(server_io, crate::bed::v5::Cfg5::default().shared());
             let d = Rc::new(Done::default());
@@ -178,10 +182,13 @@ pub async fn run_gate(c: GateCase) -> Result<CaseInfo, Failure> {
             let l2 = log.clone();
             let extra = move || l2.borrow().len();
             let mut at = 0;
-            for cut in cut_at.iter().chain(std::iter::once(&stream.len())) {
+            for (k, cut) in cut_at.iter().chain(std::iter::once(&stream.len())).enumerate() {
                 p.send(&stream[at..*cut]);
                 at = *cut;
                 settle(&Watch { peer: &p, app: &app, done: &d, extra: &extra }).await;
+                if c.late && k == 0 {
+                    ntex::time::sleep(ntex::time::Millis(1200)).await;
+                }
             }
             settle(&Watch { peer: &p, app: &app, done: &d, extra: &extra }).await;
             let l = log.borrow();
@@ -733,10 +740,10 @@ pub fn run(ctx: &Ctx, started: Instant) -> i32 {
     let per_first = ctx.tier.pick(10usize, 200);
     for first in firsts() {
         for srv in [Srv::V3Only, Srv::V5Only, Srv::Combined] {
-            gate.push(GateCase { srv, first, cuts: 0, pipelined: true });
-            gate.push(GateCase { srv, first, cuts: 0x7FFF, pipelined: false });
+            gate.push(GateCase { srv, first, cuts: 0, pipelined: true, late: false });
+            gate.push(GateCase { srv, first, cuts: 0x7FFF, pipelined: false, late: false });
             for _ in 0..per_first {
-                gate.push(GateCase { srv, first, cuts: (rng.next() as u16) & 0x7FFF, pipelined: rng.chance(1, 2) });
+                gate.push(GateCase { srv, first, cuts: (rng.next() as u16) & 0x7FFF, pipelined: rng.chance(1, 2), late: false });
             }
         }
     }
@@ -744,7 +751,13 @@ pub fn run(ctx: &Ctx, started: Instant) -> i32 {
     for level in [4u8, 5] {
         for cuts in 0..full {
             // quick: all cut sets of the first 12 bytes (where the version is decided); thorough: of the first 15
-            gate.push(GateCase { srv: Srv::Combined, first: First::Connect { name: 0, level, reserved: false }, cuts: cuts as u16, pipelined: cuts % 2 == 0 });
+            gate.push(GateCase { srv: Srv::Combined, first: First::Connect { name: 0, level, reserved: false }, cuts: cuts as u16, pipelined: cuts % 2 == 0, late: false });
+        }
+    }
+    // no limit on the time the protocol version may take (protocol_version_timeout(0)): the rest of the CONNECT arrives 1.2 s late
+    for level in [4u8, 5] {
+        for cuts in [1u16 << 0, 1 << 3, 1 << 6, 1 << 8] {
+            gate.push(GateCase { srv: Srv::Combined, first: First::Connect { name: 0, level, reserved: false }, cuts, pipelined: true, late: true });
         }
     }
     let mut outcomes: Vec<OutcomeCase> = Vec::new();
@@ -774,7 +787,7 @@ pub fn run(ctx: &Ctx, started: Instant) -> i32 {
         level: "exploration",
         rule: format!(
             "(a) {n_gate} gate cases: every first packet (CONNECT with protocol name MQTT/MQTt/MQIsdp/empty/MQTTX x level 0,3,4,5,6,0x84 x reserved flag; every other v3 and v5 packet template) against a v3-only, a v5-only and the combined server, unfragmented, byte-at-a-time and under sampled cut sets \
-             of the first 15 bytes, with or without a PUBLISH pipelined behind it, plus all cut sets of the first 12 (thorough: 15) bytes of the plain level-4 and level-5 CONNECT on the combined server: level 4 reaches exactly the v3 handshake service and level 5 the v5 one with the CONNECT unaltered, the pipelined \
+             of the first 15 bytes, with or without a PUBLISH pipelined behind it, plus all cut sets of the first 12 (thorough: 15) bytes of the plain level-4 and level-5 CONNECT on the combined server, and the same CONNECT arriving 1.2 s late in real time with protocol_version_timeout(0) = no limit: level 4 reaches exactly the v3 handshake service and level 5 the v5 one with the CONNECT unaltered, the pipelined \
              PUBLISH is handled once with its payload, everything else ends the connection with no handshake service, no handler and no success CONNACK. (b) {n_out} handshake outcomes (accept / every refusal code / service error, fast or held while the pipelined PUBLISH arrives): no handler and no byte before the \
              decision, CONNACK first, a refusal writes only its CONNACK and closes. (c) generated limit tuples (max_qos, max_size, max_receive, max_topic_alias, max_send x CONNECT keep-alive, Receive Maximum, Maximum Packet Size x handshake keep_alive / max_send overrides; clients: CONNACK values) probed by behaviour: \
              CONNACK announcements incl. Server Keep Alive, credit() and frames on the wire = min(configured/overridden, peer Receive Maximum), inbound size M-8 accepted / M+8 refused (0x95), QoS at / above maximum (0x9B), alias max / max+1, Receive Maximum RM / RM+1 (0x93), outbound size below / above the peer's maximum. \
